@@ -22,30 +22,54 @@ from vpx.harness import c06 as infra      # real Environment + BuildContext + ha
 ENV = infra.ENV
 
 
-class _Out:
-    """a produced file as DefaultOutputs sees it"""
+from bfg9000.file_types import Node as _Node
+from bfg9000.builtins import tests as btests
+
+
+class _Out(_Node):
+    """a produced file as DefaultOutputs and test() see it"""
     def __init__(self, name):
+        _Node.__init__(self, Path(name))
         self.name = name
         self.creator = object()
-        self.all = [self]
-        self.path = Path(name)
+
+
+class _TEnv:
+    def run_arguments(self, args, lang=None):
+        return args
+
+
+class _TCtx:
+    env = _TEnv()
+
+    def __init__(self, build):
+        self.build = build
 
 
 class _Build(dict):
     pass
 
 
+def _part(op):
+    """12 partitions of one call: kind x output, both test() forms together"""
+    o, i = op
+    return (3 if o == 4 else o) * 3 + i
+
+
 def d_defaults(ops: List[Tuple[int, int]]) -> bool:
-    """every history of link(x) / default(x) / install(x) / test(x) over three outputs: the default
-    target builds the explicitly requested outputs if there are any, else every linked output that
-    was not handed to test(); the Make and Ninja `all` rules list exactly that set
-    pre: len(ops) == param('NO', 3) and all(0 <= o < 4 and 0 <= i < 3 for o, i in ops)
-    pre: param('P0', -1) < 0 or ops[0][0] * 3 + ops[0][1] == param('P0', -1)
-    pre: param('P1', -1) < 0 or ops[1][0] * 3 + ops[1][1] == param('P1', -1)
+    """every history of link(x) / default(x) / install(x) / test(x) / test(x, driver=...) over
+    three outputs (the real TestCase / TestDriver constructors): the default target builds the
+    explicitly requested outputs if there are any, else every linked output that was not handed
+    to test(), directly or below a test driver; the Make and Ninja `all` rules list exactly that set
+    pre: len(ops) == param('NO', 3) and all(0 <= o < 5 and 0 <= i < 3 for o, i in ops)
+    pre: param('P0', -1) < 0 or _part(ops[0]) == param('P0', -1)
+    pre: param('P1', -1) < 0 or _part(ops[1]) == param('P1', -1)
     post: _
     """
     outs = [_Out('x0'), _Out('x1'), _Out('x2')]
     d = bdefault.DefaultOutputs()
+    tctx = _TCtx({'defaults': d, 'tests': btests.TestInputs()})
+    drv = btests.TestDriver(tctx, ['driver-prog'])
     linked = []
     explicit = []
     tested = []
@@ -65,7 +89,10 @@ def d_defaults(ops: List[Tuple[int, int]]) -> bool:
             if i not in linked:
                 continue
             tested.append(i)
-            d.remove(x)             # Test.__init__
+            if o == 3:
+                btests.TestCase(tctx, x)
+            else:
+                btests.TestCase(tctx, [x, '--flag'], driver=drv)
     want = sorted(set(explicit)) if explicit else sorted(i for i in linked if i not in tested)
     got = sorted(set(outs.index(x) for x in d.outputs))
     ok = got == want
@@ -209,4 +236,39 @@ def e_edges(nfiles: int, haslib: bool, nextra: int, cextra: int, nout: int, hasa
     want_all = ['prog'] + (['libutil.a'] if haslib else []) + (['libver.so'] if hasver else [])
     ok = ok and sorted(_sfx(d) for d in mk2._rules[-1].deps) == sorted(want_all)
     ok = ok and sorted(_sfx(d) for d in nf2._builds[-1].inputs) == sorted(want_all)
+    return R(ok)
+
+
+def k_always_outdated(nout: int, ao: bool, hasdep: bool) -> bool:
+    """build_step with 1-2 outputs: the rule that carries the recipe is run on every build exactly
+    when always_outdated=True (Make: that rule's target is phony; Ninja: the build depends on the
+    never-up-to-date PHONY target), in both backends alike, and every declared output still has
+    exactly one producer
+    pre: 1 <= nout <= 2
+    post: _
+    """
+    build, ctx = infra._context()
+    names = ['gen.c', 'gen.h'][:nout]
+    ctx['build_step'](names if nout > 1 else names[0], cmd=['prog', 'x'], always_outdated=ao,
+                      extra_deps=[ctx['generic_file']('in.txt')] if hasdep else [])
+    edges, mk, nf, cdb = infra._run_handlers(build)
+    ok = True
+    recipe_rules = [r for r in mk._rules if r.recipe is not None]
+    if len(recipe_rules) != 1:
+        return R(False)
+    ok = ok and bool(recipe_rules[0].phony) == ao
+    # every declared output is made by that rule or hangs on it
+    rt = [_sfx(t) for t in recipe_rules[0].targets]
+    for n in names:
+        prods = [r for r in mk._rules if n in [_sfx(t) for t in r.targets]]
+        if len(prods) != 1:
+            return R(False)
+        r = prods[0]
+        if r is not recipe_rules[0]:
+            ok = ok and any(_sfx(d) in rt for d in r.deps) and not r.phony
+    cmds = [b for b in nf._builds if b.rule not in ('phony',)]
+    if len(cmds) != 1:
+        return R(False)
+    ok = ok and sorted(_sfx(o) for o in cmds[0].outputs) == sorted(names)
+    ok = ok and ('PHONY' in [_sfx(i) for i in cmds[0].implicit]) == ao
     return R(ok)
